@@ -19,14 +19,14 @@ class Ctx:
         self._cache = {}
         self.stats = {'functions_analysed': set(), 'states': 0, 'calls': 0}
 
-    def explore(self, func, gen_cancel=False, gen_bodyexc=False, bindings=None, model=None, **kw):
+    def explore(self, func, gen_cancel=False, gen_bodyexc=False, bindings=None, model=None, self_cls=None, **kw):
         key = (func.qualname, gen_cancel, gen_bodyexc, tuple(sorted((bindings or {}).items())),
-               model.__name__ if model else None, tuple(sorted(kw.items())))
+               model.__name__ if model else None, tuple(sorted(kw.items())), self_cls.name if self_cls else None)
         if key not in self._cache:
             cls = model or RunModel
             an = cls(self.prog, self.roles, self.sigs, gen_cancel=gen_cancel, gen_bodyexc=gen_bodyexc, **kw)
             ip = Interp(self.prog, an)
-            out = ip.run(func, bindings=bindings)
+            out = ip.run(func, bindings=bindings, self_cls=self_cls)
             self.stats['functions_analysed'].add(func.qualname)
             self.stats['functions_analysed'] |= ip.inlined
             self.stats['states'] += ip.nstates
